@@ -447,6 +447,180 @@ impl Run {
 		cleanup_scratches();
 		std::process::exit(code)
 	}
+
+	/// `Some((shard, nshards))` if this process was started as a worker (`--worker i n`).
+	pub fn worker_shard(&self) -> Option<(usize, usize)> {
+		let p = self.args.iter().position(|a| a == "--worker")?;
+		let i = self.args.get(p + 1)?.parse().ok()?;
+		let n = self.args.get(p + 2)?.parse().ok()?;
+		Some((i, n))
+	}
+
+	/// Value of `--name <value>` among the non-standard args.
+	pub fn arg_value(&self, name: &str) -> Option<String> {
+		let p = self.args.iter().position(|a| a == name)?;
+		self.args.get(p + 1).cloned()
+	}
+
+	/// Worker side: dump everything recorded so far as one line on stdout and exit 0.
+	pub fn finish_worker(&self) -> ! {
+		let v = {
+			let i = self.inner.lock().unwrap();
+			json!({
+				"evaluations": i.evaluations,
+				"distinct": i.distinct.iter().cloned().collect::<Vec<u64>>(),
+				"samples": i.samples,
+				"counters": i.counters,
+				"extras": Value::Object(i.extras.clone()),
+				"violations": i.violations.iter().map(|v| json!({"signature": v.signature, "what": v.what, "replay": v.replay})).collect::<Vec<_>>(),
+				"inconclusive": i.inconclusive,
+			})
+		};
+		println!("@@WORKER-RESULT {}", serde_json::to_string(&v).unwrap());
+		cleanup_scratches();
+		std::process::exit(0)
+	}
+
+	/// Parent side: merge one worker result into this run.
+	pub fn merge_worker(&self, v: &Value) {
+		let mut i = self.inner.lock().unwrap();
+		i.evaluations += v["evaluations"].as_u64().unwrap_or(0);
+		if let Some(a) = v["distinct"].as_array() {
+			for d in a {
+				if let Some(x) = d.as_u64() {
+					i.distinct.insert(x);
+				}
+			}
+		}
+		if let Some(a) = v["samples"].as_array() {
+			for s in a {
+				if i.samples.len() < i.max_samples {
+					i.samples.push(s.clone());
+				}
+			}
+		}
+		if let Some(m) = v["counters"].as_object() {
+			for (k, x) in m {
+				*i.counters.entry(k.clone()).or_insert(0) += x.as_u64().unwrap_or(0);
+			}
+		}
+		if let Some(a) = v["violations"].as_array() {
+			for x in a {
+				let sig = x["signature"].as_str().unwrap_or("").to_string();
+				if i.violation_sigs.insert(sig.clone()) {
+					i.violations.push(Violation {
+						signature: sig,
+						what: x["what"].as_str().unwrap_or("").to_string(),
+						replay: x["replay"].clone(),
+					});
+				}
+			}
+		}
+		if let Some(a) = v["inconclusive"].as_array() {
+			for x in a {
+				if i.inconclusive.len() < 50 {
+					i.inconclusive.push(x.as_str().unwrap_or("").to_string());
+				}
+			}
+		}
+	}
+
+	/// Parent side: run `n` worker processes of this same binary (`--worker i n`
+	/// plus the common flags and `extra`), merge what they recorded and return
+	/// the raw results (for cross-worker comparisons through `extras`). A worker
+	/// that dies or times out is recorded as inconclusive, never as a violation.
+	pub fn spawn_workers(&self, n: usize, extra: &[String], timeout_s: u64) -> Vec<Value> {
+		use std::io::Read;
+		use std::process::{Command, Stdio};
+		let exe = std::env::current_exe().expect("current_exe");
+		let mut children = vec![];
+		for i in 0..n {
+			let mut cmd = Command::new(&exe);
+			cmd.arg("--tier")
+				.arg(self.tier.name())
+				.arg("--seed")
+				.arg(self.seed.to_string())
+				.arg("--worker")
+				.arg(i.to_string())
+				.arg(n.to_string());
+			for a in &self.args {
+				if a != "--worker" {
+					cmd.arg(a);
+				}
+			}
+			for a in extra {
+				cmd.arg(a);
+			}
+			cmd.stdout(Stdio::piped()).stderr(Stdio::piped());
+			match cmd.spawn() {
+				Ok(c) => children.push((i, c)),
+				Err(e) => self.inconclusive(&format!("worker {} could not be started: {}", i, e)),
+			}
+		}
+		let start = Instant::now();
+		let mut results = vec![];
+		// reader threads so that pipes never fill up
+		let mut handles = vec![];
+		for (i, mut c) in children {
+			let mut so = c.stdout.take().unwrap();
+			let mut se = c.stderr.take().unwrap();
+			let ho = std::thread::spawn(move || {
+				let mut s = String::new();
+				let _ = so.read_to_string(&mut s);
+				s
+			});
+			let he = std::thread::spawn(move || {
+				let mut s = Vec::new();
+				let _ = se.read_to_end(&mut s);
+				String::from_utf8_lossy(&s).to_string()
+			});
+			handles.push((i, c, ho, he));
+		}
+		for (i, mut c, ho, he) in handles {
+			let status = loop {
+				match c.try_wait() {
+					Ok(Some(st)) => break Some(st),
+					Ok(None) => {
+						if start.elapsed().as_secs() > timeout_s {
+							let _ = c.kill();
+							let _ = c.wait();
+							break None;
+						}
+						std::thread::sleep(std::time::Duration::from_millis(50));
+					}
+					Err(_) => break None,
+				}
+			};
+			let out = ho.join().unwrap_or_default();
+			let err = he.join().unwrap_or_default();
+			let mut got = false;
+			for line in out.lines() {
+				if let Some(j) = line.strip_prefix("@@WORKER-RESULT ") {
+					if let Ok(v) = serde_json::from_str::<Value>(j) {
+						self.merge_worker(&v);
+						results.push(v);
+						got = true;
+					}
+				}
+			}
+			match status {
+				Some(st) if st.success() && got => {}
+				Some(st) => {
+					let tail: String = err.chars().rev().take(400).collect::<String>().chars().rev().collect();
+					self.inconclusive(&format!(
+						"worker {} ended with {:?} (result line: {}); stderr tail: {}",
+						i, st, got, tail.replace('\n', " | ")
+					));
+					self.count("workers_failed", 1);
+				}
+				None => {
+					self.inconclusive(&format!("worker {} exceeded the {} s watchdog and was killed", i, timeout_s));
+					self.count("workers_failed", 1);
+				}
+			}
+		}
+		results
+	}
 }
 
 static SCRATCHES: Mutex<Vec<PathBuf>> = Mutex::new(Vec::new());
